@@ -195,6 +195,9 @@ func (g *Gen) genC08() {
 			expOK = true
 			v = r.ReCase("SIP/2.0")
 			code = r.N(1000)
+			if r.P(4) {
+				code = 0 // "000" is a status line like any other
+			}
 			reason = r.Pick("OK", "", "Not Found", " leading", "trailing ", "a\tb", r.RandBytes("abc XYZ.;,\t\"", 0, 20))
 			line = fmt.Sprintf("%s %03d %s%s", v, code, reason, eol)
 		default: // near misses
@@ -293,7 +296,7 @@ func (g *Gen) genC08() {
 						return fmt.Sprintf("method %q got number %d, expected %d", m, fl.MethodNo, refMethodNo(m))
 					}
 				} else {
-					if (fl.Request() && code != 0) || int(fl.Status) != code || fget(bb, fl.Version) != v || fget(bb, fl.Reason) != reason || fget(bb, fl.StatusCode) != fmt.Sprintf("%03d", code) {
+					if fl.Request() || int(fl.Status) != code || fget(bb, fl.Version) != v || fget(bb, fl.Reason) != reason || fget(bb, fl.StatusCode) != fmt.Sprintf("%03d", code) {
 						return fmt.Sprintf("status line %q: status %d version %q reason %q", line, fl.Status, fget(bb, fl.Version), fget(bb, fl.Reason))
 					}
 				}
@@ -1556,7 +1559,7 @@ func (g *Gen) genC19() {
 		}})
 		// replies yield no signature
 		if r.P(20) {
-			rep := "SIP/2.0 200 OK\r\n" + base[len(fl):]
+			rep := "SIP/2.0 " + r.Pick("200", "200", "100", "000", "999", "486") + " OK\r\n" + base[len(fl):]
 			g.add(Case{Prop: "C19", Desc: "reply", Lines: []string{parseSess("msg - -", rep, 0, []int{len(rep)}, 0, false, "G")}, Check: func(out []string) string {
 				v := splitOut(out[0])
 				if strings.HasSuffix(v[0], "ErrHdrOk") && !strings.Contains(last(v), "str= err=ErrHdrEmpty") {
